@@ -87,6 +87,11 @@ func main() {
 				}
 			}
 		}
+	case "debug-sign":
+		if len(os.Args) > 2 {
+			repoRoot = os.Args[2]
+		}
+		debugSign(loadResolve("", true))
 	case "debug-c10":
 		if len(os.Args) > 2 {
 			repoRoot = os.Args[2]
